@@ -26,7 +26,7 @@ inductive Ty where
   | named (parts : List String) (args : List Ty) (hasArgs : Bool)
   | array (elem : Ty) (size : Int) (sizeExpr : Option Expr)
 inductive Expr where
-  | lit (value : String) (ty : String)
+  | lit (value : String) (ty : String) (p : P)
   | null (p : P)
   | var (name : String) (p : P)
   | bin (op : String) (l r : Expr) (p : P)
